@@ -141,6 +141,7 @@ def main(argv=None):
         agg = orch.run_batch(prop, e, tier, seed, share, max_runs)
         confirmed = orch.confirm_crashes(e, prop, seed, agg)
         agg["violations"] += confirmed
+        agg["violations"] += orch.confirm_boot_crash(e, prop, agg)
         eng_mod = orch.engine_module(e)
         if hasattr(eng_mod, "cross_check"):
             agg["violations"] += eng_mod.cross_check(agg)
@@ -161,7 +162,8 @@ def main(argv=None):
     for e, rec, mine in found:
         eng = orch.engine_module(e)
         v = mine[0]
-        fp = eng.fingerprint(rec["plan"], v) if rec["plan"] else v["oracle"]
+        fp = (eng.fingerprint(rec["plan"], v) if rec["plan"] and not rec["plan"].get("warmup_only")
+              else v["oracle"] + " @ " + str(v.get("phase")))
         hit = None
         for k in known:
             if k.get("status", "open") == "open" and k["property"] == prop and k["fingerprint"] == fp:
@@ -181,7 +183,8 @@ def main(argv=None):
     for n, (e, rec, v, fp) in enumerate(new[:5]):
         plan = rec["plan"]
         tried = 0
-        if plan is not None and n < (3 if tier == "thorough" else 2) and hasattr(orch.engine_module(e), "shrink_candidates"):
+        if plan is not None and not plan.get("warmup_only") and n < (3 if tier == "thorough" else 2) \
+                and hasattr(orch.engine_module(e), "shrink_candidates"):
             try:
                 plan, tried = orch.minimise(e, plan, (prop, v["oracle"]),
                                             budget=400 if tier == "thorough" else 150,
@@ -235,7 +238,14 @@ def replay(prop, path):
     plan = rp["plan"]
     srv = orch.Serve(e, plan.get("hashseed", 0))
     try:
-        res = orch.result_with_crash(e, srv.run(plan))
+        try:
+            res = orch.result_with_crash(e, srv.run(plan))
+        except RuntimeError as ex:
+            if not plan.get("warmup_only") or "'rc': -" not in str(ex):
+                raise
+            # the replay server itself was killed by a signal while warming up
+            res = orch.result_with_crash(e, {"verdict": "crash", "how": str(ex)[:200], "phase": "warmup",
+                                             "violations": []})
     finally:
         srv.close()
     want = (rp["property"], rp["oracle"])
